@@ -8,3 +8,4 @@ python3 -m zv.refs.semver
 python3 -m zv.refs.pep440
 python3 -m zv.refs.sanitize
 python3 -m zv.refs.cal
+python3 -m zv.ron
